@@ -228,4 +228,15 @@ theorem header_type_property (r : Str) (hr : r ∈ propRoots) (d1 d2 anno : Str)
     rcases hr with rfl | rfl | rfl | rfl | rfl <;>
       simp [tableChars, List.filter, isPrefix, isSuffix, loopHits, marker, hx.2.1, hx.2.2.1, hx.2.2.2.1]
 
+theorem cutAnno_idem (h : Str) (hh : ∀ x ∈ h, x ≠ '[') : cutAnno h = h := by
+  have := cut_header h [] hh (Or.inl rfl)
+  simpa using this
+
+/-- whatever stands inside (and behind) the annotation has no influence on the type: symbols, the
+    property marker or further brackets in the annotation are not seen -/
+theorem annotation_has_no_influence (tbl : List Str) (h t : Str) (hh : ∀ x ∈ h, x ≠ '[') :
+    extractType tbl (h ++ '[' :: t) = extractType tbl h := by
+  unfold extractType
+  rw [cut_header h ('[' :: t) hh (Or.inr ⟨t, rfl⟩), cutAnno_idem h hh]
+
 end IGVerif.Header
